@@ -303,6 +303,10 @@ def main(argv):
     from pv import ctx, findings
     prop = load_prop(pid)
     sys.setrecursionlimit(5000)
+    child_out = argv[argv.index("--out") + 1] if "--out" in argv else None
+    configs = getattr(prop, "CONFIGS", None)
+    if configs and "--config" not in argv:
+        return run_configs(pid, tier, seed, prop, configs, t0)
 
     # 0. reference kit self-test (cheap): a broken reference must never produce VIOLATION lines
     from pv.ref import selfcheck
@@ -355,7 +359,69 @@ def main(argv):
     if total.harness_error:
         print("HARNESS ERROR:\n" + total.harness_error)
         return 2
+    if child_out:
+        import pickle
+        with open(child_out, "wb") as fh:
+            pickle.dump({"stats": total, "active": sorted(active), "plan": plan, "ncorpus": len(corpus)}, fh)
+        return 0
+    return report(pid, tier, seed, prop, total, active, plan, bool(jobs_e), corpus, t0)
 
+
+def run_configs(pid, tier, seed, prop, configs, t0):
+    """Configuration-quantified properties: the library reads its settings at import, so every
+    configuration runs in its own interpreter; results are merged here."""
+    import pickle
+    import subprocess
+    import tempfile
+    total = Stats()
+    active_all, plan, ncorpus = set(), {}, 0
+    procs = []
+    for name, env in configs.items():
+        out = tempfile.NamedTemporaryFile(prefix="pv_cfg_", suffix=".pkl", delete=False).name
+        e = dict(os.environ)
+        e.update(env)
+        e["PV_CONFIG"] = name
+        e["PV_PROCS"] = str(max(2, int(os.environ.get("PV_PROCS", "16")) // max(1, len(configs))))
+        procs.append((name, out, subprocess.Popen([sys.executable, "-m", "pv.runner", pid, tier, "--config", name, "--out", out],
+                                                  env=e, stdout=subprocess.PIPE, stderr=subprocess.STDOUT, text=True)))
+    rc = 0
+    seen_lines = set()
+    for name, out, p in procs:
+        text, _ = p.communicate()
+        for line in text.splitlines():
+            if line.startswith(("KNOWN-FINDING:", "note:")):
+                if line not in seen_lines:
+                    seen_lines.add(line)
+                    print(line)
+            elif line.strip():
+                print(f"[{name}] {line}")
+        if p.returncode != 0:
+            rc = 2
+            continue
+        with open(out, "rb") as fh:
+            d = pickle.load(fh)
+        os.unlink(out)
+        st = d["stats"]
+        st.found = {f"{b} [config {name}]": v for b, v in st.found.items()}
+        for v in st.found.values():
+            v["config"] = name
+        total.merge(st)
+        total.extra[f"config:{name}:cases"] += st.evaluations
+        active_all |= set(d["active"])
+        plan = d["plan"]
+        ncorpus += d["ncorpus"]
+    if rc:
+        print("HARNESS ERROR: a configuration run failed")
+        return 2
+    plan = dict(plan)
+    plan["configs"] = {k: v for k, v in configs.items()}
+    return report(pid, tier, seed, prop, total, active_all, plan, bool(plan.get("exhaustive")), [None] * ncorpus, t0)
+
+
+def report(pid, tier, seed, prop, total, active, plan, has_exhaustive, corpus, t0):
+    shards = plan.get("shards", 16)
+    jobs_e = has_exhaustive
+    exhaustive_complete = True
     # 3. report
     nviol = 0
     for bucket, v in sorted(total.found.items()):
@@ -369,7 +435,7 @@ def main(argv):
         for c in lst:
             if len(samples) < MAX_SAMPLES:
                 samples.append({"class": label, "case": c})
-    if not samples and corpus:
+    if not samples and corpus and corpus[0]:
         samples = [{"class": "corpus", "case": corpus[0][1]}]
     ev = {
         "property_id": pid, "tier": tier, "seed": seed, "level": "exploration",
@@ -387,6 +453,7 @@ def main(argv):
             "corpus_cases": total.extra.get("corpus_cases", 0),
             "hypothesis": {"streams": plan.get("streams", {}), "shards": shards,
                            "settings": "database=None deadline=None derandomize=False report_multiple_bugs=False"},
+            "configurations": plan.get("configs", {}),
             "budget_stops": total.extra.get("budget_stop", 0),
             "extra": {k: v for k, v in total.extra.items() if k not in ("corpus_cases", "budget_stop")},
         },
